@@ -187,8 +187,9 @@ NumericIndexOfReg(reg) ==
                  n >= m.first /\ n < m.first + m.count}
   IN IF S = {} THEN 0 ELSE CHOOSE i \in S : TRUE
 IsNumericReg(reg) == NumericIndexOfReg(reg) # 0
-AddrOfNumeric(reg) == LET m == NumericSchemes[NumericIndexOfReg(reg)] IN
+AddrOfNumericAt(reg, k) == LET m == NumericSchemes[k] IN
   m.start + NumOf(SubSeq(reg, Len(m.text) + 1, Len(reg))) - m.first
+AddrOfNumeric(reg) == AddrOfNumericAt(reg, NumericIndexOfReg(reg))
 NumericIndexOf(h) ==
   IF h >= \h140000 /\ h < \h140000 + 100000 THEN 1
   ELSE IF h >= \h0B03E8 /\ h < \h0B03E8 + 1000 THEN 2 ELSE 0
@@ -239,21 +240,22 @@ PublishedStrideSchemes ==
 (* (a separate name so that MC_Registration can substitute a mutant) *)
 StrideSchemes == PublishedStrideSchemes
 NStride == Len(StrideSchemes)
-SOfs(m, l) == FIdx(l[1]) * m[2] + FIdx(l[2]) * m[3] + FIdx(l[3])
+SOfs(m, ltr) == FIdx(ltr[1]) * m[2] + FIdx(ltr[2]) * m[3] + FIdx(ltr[3])
 SEnd(m) == m[1] + SOfs(m, m[6]) - SOfs(m, m[5])
 StrideIndexOfReg(reg) ==
   LET S == {i \in 1..NStride :
               LET m == StrideSchemes[i] IN
               /\ Len(reg) = Len(m[4]) + 3
               /\ SubSeq(reg, 1, Len(m[4])) = m[4]
-              /\ LET l == SubSeq(reg, Len(m[4]) + 1, Len(reg)) IN
-                 /\ \A k \in 1..3 : IsUpper(l[k])
-                 /\ SOfs(m, l) >= SOfs(m, m[5]) /\ SOfs(m, l) <= SOfs(m, m[6])}
+              /\ LET ltr == SubSeq(reg, Len(m[4]) + 1, Len(reg)) IN
+                 /\ \A k \in 1..3 : IsUpper(ltr[k])
+                 /\ SOfs(m, ltr) >= SOfs(m, m[5]) /\ SOfs(m, ltr) <= SOfs(m, m[6])}
   IN IF S = {} THEN 0 ELSE CHOOSE i \in S : TRUE
 IsStrideReg(reg) == StrideIndexOfReg(reg) # 0
-AddrOfStride(reg) == LET m == StrideSchemes[StrideIndexOfReg(reg)]
-                         l == SubSeq(reg, Len(m[4]) + 1, Len(reg)) IN
-                     m[1] + SOfs(m, l) - SOfs(m, m[5])
+AddrOfStrideAt(reg, k) == LET m == StrideSchemes[k]
+                              ltr == SubSeq(reg, Len(m[4]) + 1, Len(reg)) IN
+                          m[1] + SOfs(m, ltr) - SOfs(m, m[5])
+AddrOfStride(reg) == AddrOfStrideAt(reg, StrideIndexOfReg(reg))
 StrideDecodable(m, h) ==
   LET o == h - m[1] + SOfs(m, m[5]) IN
   o \div m[2] < 26 /\ (o % m[2]) \div m[3] < 26 /\ o % m[3] < 26
@@ -286,9 +288,11 @@ AddrOf(reg) ==
   IF IsNReg(reg) THEN AddrOfN(reg)
   ELSE IF IsJAReg(reg) THEN AddrOfJA(reg)
   ELSE IF IsHLReg(reg) THEN AddrOfHL(reg)
-  ELSE IF IsNumericReg(reg) THEN AddrOfNumeric(reg)
-  ELSE IF IsStrideReg(reg) THEN AddrOfStride(reg)
-  ELSE NoAddr
+  ELSE LET kn == NumericIndexOfReg(reg)      \* (evaluated once each)
+           ks == StrideIndexOfReg(reg) IN
+       IF kn # 0 THEN AddrOfNumericAt(reg, kn)
+       ELSE IF ks # 0 THEN AddrOfStrideAt(reg, ks)
+       ELSE NoAddr
 (* RegOf: reverse lookup, schemes tried in the order N, JA, HL, numeric,   *)
 (* stride (MC_Registration shows RegOf is the inverse of AddrOf).          *)
 RegOf(h) ==
@@ -368,7 +372,7 @@ Alias ==
   "Republic of Korea" :> {"South Korea", "Korea, Republic of", "Korea (Republic of)"} @@
   "Russia" :> {"Russian Federation"} @@
   "Syria" :> {"Syrian Arab Republic"} @@
-  "Turkey" :> {"Turkiye"} @@
+  "Turkey" :> {"Turkiye", "T?rkiye"} @@      \* (non-ASCII letters are read as ?)
   "The Netherlands" :> {"Netherlands", "Netherlands, Kingdom of the"} @@
   "Czech Republic" :> {"Czechia"} @@
   "Iran" :> {"Iran, Islamic Republic of"} @@
